@@ -13,7 +13,7 @@
     deeper re-creations are decided by the correspondence. *)
 From stdpp Require Import gmap list.
 From Coq Require Import NArith ZArith.
-From VFS Require Import Core.Types Core.Prog Core.Calls Base.MemFS Base.Handles Base.Store Layer.VfsPath Layer.Overlay
+From VFS Require Import Core.Types Core.Prog Core.Calls Base.MemFS Base.Handles Base.Store Layer.VfsPath Layer.Overlay Layer.Config
   Spec.Tree Proofs.Leaves Proofs.MemProofs Proofs.ConcProofs Proofs.OvlProofs Proofs.OvlList Proofs.OvlLife Proofs.OvlDeep.
 
 Notation mstate := (gmap (list (list N)) memfile).
@@ -199,6 +199,13 @@ Theorem C10_failed_append_below_removed_dir : forall lg ft (s0 s1 : mstate) hs (
             (mstore2 s0 s1 hs lg ft, Err e).
 Proof. exact append_below_removed_dir. Qed.
 
+(** an OverlayFS has no state of its own: two instances over the same layers (a second handle on the stack, or the stack
+    re-opened later) are the same program on every call - what one of them removed stays removed for the other, because
+    deletions live in the write layer *)
+Theorem C10_instance_has_no_state : forall (k k' : nat) t lower c,
+  interp (FOvl k t lower) c = interp (FOvl k' t lower) c.
+Proof. reflexivity. Qed.
+
 Print Assumptions C10_marker_hides.
 Print Assumptions C10_marker_injective.
 Print Assumptions C10_bookkeeping_hidden.
@@ -217,3 +224,4 @@ Print Assumptions C10_deleted_stays_deleted.
 Print Assumptions C10_create_dir_is_a_step.
 Print Assumptions C10_remove_file_is_a_step.
 Print Assumptions C10_failed_append_below_removed_dir.
+Print Assumptions C10_instance_has_no_state.
